@@ -19,13 +19,22 @@ type c10exp struct {
 type c10state struct {
 	haveBase bool
 	accepted bool
+	crashed  bool
 	baseRes  *plan.Res
 	pending  []c10pend
+}
+
+func (st *c10state) panicOf() string {
+	if st != nil && st.baseRes != nil {
+		return st.baseRes.Panic
+	}
+	return ""
 }
 
 type c10pend struct {
 	variant  int
 	accepted bool
+	crashed  bool
 	res      *plan.Res
 	op       plan.Op
 }
@@ -87,6 +96,13 @@ func checkC10(e *Env) {
 		}
 	}
 
+	reportCrashPair := func(grp *spellGroup, baseCrashed bool, baseOp plan.Op, p c10pend, basePanic string) {
+		v := grp.variants[p.variant]
+		which := map[bool]string{true: preview(grp.base), false: preview(v.s)}[baseCrashed]
+		e.Violate(&Violation{
+			What: fmt.Sprintf("two spellings with the same NFKD form are not treated alike under %s: %s makes CheckMnemonic panic while its equivalent (form %s) gets an ordinary verdict: %s", ref.Names[grp.lang], which, v.form, oneLine(p.res.Panic+basePanic, 200)),
+			Ops: []plan.Op{baseOp, p.op}, Expected: "same verdict", Observed: p.res})
+	}
 	stats := e.RunStream(StreamOpts{Drv: drv}, func(emit func(*Item)) {
 		e.spellCorpus("C10", sizes, true, true, e.pick(3000, 200000), func(grp *spellGroup) {
 			kinds.Inc(grp.kind)
@@ -123,15 +139,18 @@ func checkC10(e *Env) {
 		})
 	}, func(it *Item, r *plan.Res) {
 		x := it.Exp.(c10exp)
-		if f := failure(r); f != "" {
+		if r.Died != "" || r.Hang != "" {
 			skipped.Inc("crash-not-judged-here")
 			return
 		}
-		acc := r.Err == nil
+		// a panic is no verdict; it is compared like one (a spelling that gets a verdict and an
+		// equivalent spelling that makes the call panic are not treated alike)
+		crashed := r.Panic != ""
+		acc := r.Err == nil && !crashed
 		mu.Lock()
 		st := states[x.grp]
 		if x.variant < 0 {
-			st.haveBase, st.accepted, st.baseRes = true, acc, r
+			st.haveBase, st.accepted, st.baseRes, st.crashed = true, acc, r, crashed
 			pend := st.pending
 			st.pending = nil
 			mu.Unlock()
@@ -139,19 +158,28 @@ func checkC10(e *Env) {
 				skipped.Inc("base-of-valid-sentence-rejected")
 			}
 			for _, p := range pend {
-				compare(x.grp, acc, it.Op, p)
+				if crashed != p.crashed {
+					reportCrashPair(x.grp, crashed, it.Op, p, r.Panic)
+				} else if !crashed {
+					compare(x.grp, acc, it.Op, p)
+				}
 			}
 			return
 		}
-		p := c10pend{variant: x.variant, accepted: acc, res: r, op: it.Op}
+		p := c10pend{variant: x.variant, accepted: acc, crashed: crashed, res: r, op: it.Op}
 		if !st.haveBase {
 			st.pending = append(st.pending, p)
 			mu.Unlock()
 			return
 		}
-		baseAcc := st.accepted
+		baseAcc, baseCrashed, basePanic := st.accepted, st.crashed, st.panicOf()
 		mu.Unlock()
-		compare(x.grp, baseAcc, plan.Op{Fn: "chkval", L: int64(x.grp.lang), S: hxs(x.grp.base)}, p)
+		baseOp := plan.Op{Fn: "chkval", L: int64(x.grp.lang), S: hxs(x.grp.base)}
+		if baseCrashed != p.crashed {
+			reportCrashPair(x.grp, baseCrashed, baseOp, p, basePanic)
+		} else if !p.crashed {
+			compare(x.grp, baseAcc, baseOp, p)
+		}
 	})
 
 	// histories in one process: a non-normalised spelling asked under one language and then
